@@ -5,9 +5,9 @@ misses, all checks); store under /verif/seeded/<ID>-<A|B>/.  usage: ingest_agent
 import json, os, shutil, subprocess, sys
 pid = sys.argv[1]
 run_all = "--all" in sys.argv
-rnd = "2" if "--round2" in sys.argv else ("3" if "--round3" in sys.argv else ("4" if "--round4" in sys.argv else ("5" if "--round5" in sys.argv else ("6" if "--round6" in sys.argv else ("7" if "--round7" in sys.argv else ("8" if "--round8" in sys.argv else ("9" if "--round9" in sys.argv else ("A" if "--round10" in sys.argv else ""))))))))
+rnd = "2" if "--round2" in sys.argv else ("3" if "--round3" in sys.argv else ("4" if "--round4" in sys.argv else ("5" if "--round5" in sys.argv else ("6" if "--round6" in sys.argv else ("7" if "--round7" in sys.argv else ("8" if "--round8" in sys.argv else ("9" if "--round9" in sys.argv else ("A" if "--round10" in sys.argv else ("B" if "--round11" in sys.argv else "")))))))))
 src = f"/tmp/mut{rnd}_{pid}"
-NAMES = {"": {"A": "A", "B": "B"}, "2": {"A": "C", "B": "D"}, "3": {"A": "E"}, "4": {"A": "F", "B": "G"}, "5": {"A": "H", "B": "I"}, "6": {"A": "H", "B": "I"}, "7": {"A": "J", "B": "K"}, "8": {"A": "J", "B": "K"}, "9": {"A": "L", "B": "M"}, "A": {"A": "L", "B": "M"}}[rnd]
+NAMES = {"": {"A": "A", "B": "B"}, "2": {"A": "C", "B": "D"}, "3": {"A": "E"}, "4": {"A": "F", "B": "G"}, "5": {"A": "H", "B": "I"}, "6": {"A": "H", "B": "I"}, "7": {"A": "J", "B": "K"}, "8": {"A": "J", "B": "K"}, "9": {"A": "L", "B": "M"}, "A": {"A": "L", "B": "M"}, "B": {"A": "N", "B": "O"}}[rnd]
 here = os.path.dirname(os.path.abspath(__file__))
 notes = open(os.path.join(src, "NOTES.md")).read() if os.path.exists(os.path.join(src, "NOTES.md")) else ""
 def demo_rc_with(part):
@@ -62,7 +62,7 @@ for X in NAMES:
         "all_checks_quick": {k: {"rc": v["rc"], "keys": v["keys"][:3]} for k, v in allres["props"].items()} if allres else None,
         "caught_by": (allres or r).get("caught_by"),
     }
-    if rnd in ("4", "5", "6", "7", "8", "9", "A"):
+    if rnd in ("4", "5", "6", "7", "8", "9", "A", "B"):
         meta["origin"] += " (round 4/5: had to survive the agent's own randomised smoke test fuzz.py, kept beside the patch)"
         if os.path.exists(os.path.join(src, "fuzz.py")):
             shutil.copy(os.path.join(src, "fuzz.py"), os.path.join(dst, "agent_fuzz.py"))
